@@ -71,6 +71,13 @@ def Defs.toEnv (d : Defs) : Env where
       alts[i]?.getD { instrs := [], ret := .outer 0 }
     | none => { instrs := [], ret := .outer 0 }
   handler := fun h _ => (d.hdls.lookup h).getD []
+  expertFn := fun f deps slots =>
+    -- f = 10*m + kind: kind 0 = sum of the dependencies' values, kind 1 = sum of what the callbacks stored
+    let m : Int := f / 10
+    let un (o : Option Val) : Int := match o with | some v => v.toInt | none => 100
+    if f % 10 == 0 then .int (emod (deps.foldl (fun a o => a + un o) 0) m)
+    else .int (emod ((slots.zip deps).foldl (fun a (so : Option Val × Option Val) =>
+      a + (match so.1 with | some v => v.toInt | none => 0)) 0) m)
 
 /-! ## parsing -/
 
@@ -118,6 +125,8 @@ def parseInstr (toks : List String) : Option Instr :=
   | ["zip", a, b] => do pure (.zip (← parseOpnd a) (← parseOpnd b))
   | ["dependon", a, b] => do pure (.dependOn (← parseOpnd a) (← parseOpnd b))
   | "cutoff" :: n :: c => do pure (.cutoff (← parseOpnd n) (← parseCutoff c))
+  | ["expert", "sumdeps", m] => do pure (.expert ((← m.toNat?) * 10))
+  | ["expert", "cbsum", m] => do pure (.expert ((← m.toNat?) * 10 + 1))
   | _ => none
 
 def parseEffect (toks : List String) : Option Effect :=
@@ -133,6 +142,12 @@ def parseEffect (toks : List String) : Option Effect :=
   | ["disallow", o] => do pure (.disallow (← parseIdx "o" o))
   | ["unsub", o, t] => do pure (.unsubscribe (← parseIdx "o" o) (← parseIdx "t" t))
   | ["sub", o, h] => do pure (.subscribe (← parseIdx "o" o) (← parseIdx "h" h))
+  | ["xadd", e, c, cb] => do pure (.xAdd (← parseOpnd e) (← parseOpnd c) (cb == "cb"))
+  | ["xrm", e, i] => do pure (.xRm (← parseOpnd e) (← i.toNat?))
+  | "xsel" :: e :: cb :: always :: ts => do
+    pure (.xSel (← parseOpnd e) (cb == "cb") (always == "always") (← ts.mapM parseOpnd))
+  | ["xstale", e] => do pure (.xStale (← parseOpnd e))
+  | ["xinval", e] => do pure (.xInval (← parseOpnd e))
   | _ => none
 
 def words (s : String) : List String := (s.splitOn " ").filter (· != "")
@@ -166,6 +181,7 @@ inductive Action where
   | replaceWith (v : Nat) (d : Int)
   | get (v : Nat)
   | dropVar (v : Nat)
+  | addDep (e child : Opnd) (cb : Bool)
   | stabilise
   | isStable
   | stats
@@ -195,6 +211,7 @@ def parseAction (toks : List String) : Option Action :=
   | ["replacewith", v, d] => do pure (.replaceWith (← parseIdx "v" v) (← parseInt? d))
   | ["get", v] => (.get ·) <$> parseIdx "v" v
   | ["dropvar", v] => (.dropVar ·) <$> parseIdx "v" v
+  | ["adddep", e, c, cb] => do pure (.addDep (← parseOpnd e) (← parseOpnd c) (cb == "cb"))
   | ["stabilise"] => some .stabilise
   | ["isstable"] => some .isStable
   | ["stats"] => some .stats
